@@ -140,6 +140,15 @@ inductive Event where
 def bootPacket (cmd a1 a2 a3 : Nat) (data : List Nat) : Option Event :=
   if data.length % 4 = 0 then some (.send (header cmd a1 a2 a3 ++ swapWords data)) else none
 
+/-- `boot_packet` called directly with arbitrary integers: `struct.pack("!H4I", ...)` raises
+`struct.error` for a value outside `0 .. 2^32-1` (before the word-size assertion is reached) -/
+def bootPacketChecked (cmd a1 a2 a3 : Int) (data : List Nat) : Except Err Event :=
+  if [cmd, a1, a2, a3].all (fun v => decide (0 ≤ v ∧ v < 4294967296)) then
+    match bootPacket cmd.toNat a1.toNat a2.toNat a3.toNat data with
+    | some ev => .ok ev
+    | none => .error .assertWord
+  else .error .structError
+
 /-- the `while len(boot_data) > 0` loop; fuel = `len(boot_data)` suffices -/
 def sendBlocks : Nat → List Nat → Nat → List Event × Option Err
   | 0, _, _ => ([], none)
@@ -416,6 +425,10 @@ def eventToJson : Event → Json
   | .sleepPost => jList [Json.str "sleep", Json.str "post"]
   | .close => jList [Json.str "close"]
 
+def packetToJson : Except Err Event → Json
+  | .ok ev => jOk (eventToJson ev)
+  | .error e => errToJson e
+
 def outcomeToJson (o : Outcome) : Json :=
   Json.mkObj [("events", jList (o.events.map eventToJson)),
     ("result", match o.result with
@@ -449,11 +462,19 @@ def specJson (jc : Json) : R Json := do
       let dgs := (← ds.mapM asStr).map unhex
       let ret ← (← arr jc "returned").mapM fieldOfJson
       let img := reassemble dgs
+      -- `packed`: what `pack()` of the returned sv definition gives (the definition must describe the
+      -- configuration that was sent: same predicate `configOK` on its first 128 bytes)
+      let packedJ ← match ← opt jc "packed" asStr with
+        | none => pure []
+        | some h => pure [("packed_ok", Json.bool (configOK c opts ((unhex h).take 128))),
+                          ("packed_model", Json.bool (match structPack c.svSize ret with
+                            | .ok b => b == unhex h
+                            | .error _ => false))]
       pure (Json.mkObj (base ++ [("shape", Json.bool (shapeOK dgs)),
         ("image", Json.bool (imageOK c img)),
         ("config", Json.bool (configOK c opts ((img.drop 384).take 128))),
         ("returned", Json.bool (returnedOK c opts ret)),
-        ("all", Json.bool (specOK c opts dgs ret))]))
+        ("all", Json.bool (specOK c opts dgs ret))] ++ packedJ))
 
 def handle (op : String) (j : Json) : R Json := do
   match op with
@@ -471,7 +492,14 @@ def handle (op : String) (j : Json) : R Json := do
     let c ← callOfJson j
     let opts ← field j "opts" >>= dictOfJson
     let ret ← (← arr j "returned").mapM fieldOfJson
-    pure (Json.mkObj [("returned", Json.bool (returnedOK c opts ret))])
+    let packedJ ← match ← opt j "packed" asStr with
+      | none => pure []
+      | some h => pure [("packed_ok", Json.bool (configOK c opts ((unhex h).take 128)))]
+    pure (Json.mkObj ([("returned", Json.bool (returnedOK c opts ret))] ++ packedJ))
+  | "packet" =>
+    -- a direct call of boot_packet(sock, cmd, arg1, arg2, arg3, data)
+    let data := unhex (← str j "data")
+    pure (packetToJson (bootPacketChecked (← int j "cmd") (← int j "a1") (← int j "a2") (← int j "a3") data))
   | "pack" =>
     let size ← nat j "size"
     let fs ← (← arr j "fields").mapM fieldOfJson
